@@ -119,11 +119,24 @@ class C03(Prop):
         faults.append(("foreign", {"foreign": "udp", "seed": R.bits(30)}))
         if full or R.chance(50):
             faults.append(("foreign", {"foreign": "udp", "seed": R.bits(30)}))
+        # pairs of faults (thorough: 40 sampled pairs; quick: 2), e.g. a lost packet AND a missing key line
+        singles = [x for x in faults if x[0] != "pair"]
+        for _ in range(40 if full else 2):
+            a, b = R.choice(singles), R.choice(singles)
+            # adding a foreign flow renumbers the tap log, so it is only paired with faults that carry no tap index
+            idx_based = lambda x: "k" in x[1]      # noqa: E731
+            if a is not b and not ("foreign" in a[1] and "foreign" in b[1]) and \
+                    not (("foreign" in a[1] and idx_based(b)) or ("foreign" in b[1] and idx_based(a))):
+                faults.append(("pair", {"pair": [list(a), list(b)]}))
         return faults
 
     def apply_fault(self, spec, kind, f):
         s2 = copy.deepcopy(spec)
         vid = spec["victim"]
+        if "pair" in f:
+            for k2, f2 in f["pair"]:
+                s2 = self.apply_fault(s2, k2, f2)
+            return s2
         if "k" in f:
             s2.setdefault("faults", []).append(f)
         elif "keydrop" in f:
@@ -200,7 +213,7 @@ class C03(Prop):
                 out.violate("output-readable", "unreadable:%s" % getattr(e, "rule", type(e).__name__), tag, focus=[kind, f])
                 continue
             for cid, pk in base.items():
-                if kind in ("cut", "late"):
+                if kind in ("cut", "late") or (kind == "pair" and any(k2 in ("cut", "late") for k2, _ in f["pair"])):
                     continue     # the capture process fault hits every flow; bystander identity is judged by C08
                 if self.flow_packets(fl, cid) != pk:
                     bc = [c for c in spec["conns"] if c["id"] == cid][0]
@@ -212,7 +225,7 @@ class C03(Prop):
             for c in ex["truth"]["conns"]:
                 if c["proto"] in ("http", "udp") and c["id"] in fl.by_conn:
                     out.violate("foreign-flows-export-nothing", "foreign-flow-exported", "%s: conn %d" % (tag, c["id"]), focus=[kind, f])
-            if kind in INFO_REMOVING:
+            if kind in INFO_REMOVING or (kind == "pair" and all(k2 in INFO_REMOVING for k2, _ in f["pair"])):
                 vt = [c for c in ex["truth"]["conns"] if c["id"] == vid][0]
                 if vt["proto"] == "tls":
                     got = fl.tcp_streams(vid)
@@ -224,10 +237,7 @@ class C03(Prop):
                 elif vt["proto"] == "quic":
                     got = [(d, p) for d, p, _ in fl.udp_seq(vid)]
                     want = [(e["d"], e["payload"]) for e in vt.get("expected", [])]
-                    if kind == "drop":
-                        ok = is_subsequence(got, want)
-                    else:
-                        ok = is_subsequence(got, want)
+                    ok = is_subsequence(got, want)
                     if not ok:
                         out.violate("victim-exports-at-most-a-prefix", "datagram-not-from-true-sequence",
                                     "%s: %d exported datagrams are not a subsequence of the %d true ones" % (
